@@ -62,8 +62,10 @@ CMB_THREAD_LOCAL struct cmi_mempool observer_tagpool
 
 /*
  * guard_queue_check - Test if heap_tag *a should go before *b. If so, return true.
- * Ranking higher priority (dsortkey) before lower, FIFO based on entry time,
- * then in key (memory address) order.
+ * Ranking higher priority (isortkey) before lower, FIFO based on entry time,
+ * then in the order of arrival at this guard (item[3], a running count): never
+ * by memory address, which would make a simulation depend on where the
+ * allocator happened to put its processes.
  */
 static bool guard_queue_check(const struct cmi_heap_tag *a,
                               const struct cmi_heap_tag *b)
@@ -85,7 +87,7 @@ static bool guard_queue_check(const struct cmi_heap_tag *a,
         return false;
     }
 
-    if (a->key < b->key) {
+    if ((uintptr_t)(a->item[3]) < (uintptr_t)(b->item[3])) {
         return true;
     }
 
@@ -155,11 +157,13 @@ int64_t cmb_resourceguard_wait_since(struct cmb_resourceguard *rgp,
 
     const double entry_time = since;
     const int64_t priority = cmb_process_priority(pp);
+    /* The running count of arrivals at this guard settles ties, see guard_queue_check */
+    const uint64_t arrival = ((struct cmi_hashheap *)rgp)->item_counter + 1u;
     const uint64_t key = cmi_hashheap_enqueue((struct cmi_hashheap *)rgp,
                                               (void *)pp,
                                               (void *)demand,
                                               (void *)ctx,
-                                              NULL,
+                                              (void *)(uintptr_t)arrival,
                                               (uint64_t)pp,
                                               entry_time,
                                               priority);
